@@ -78,5 +78,15 @@ def sdec (args : List String) : String :=
     | _, _, _ => "bad-args"
   | _ => "bad-arity"
 
+namespace Stream
+def handle (op : String) (args : List String) : Option String :=
+  match op with
+  | "sw" => some (sw args)
+  | "sr" => some (sr args)
+  | "senc" => some (senc args)
+  | "sdec" => some (sdec args)
+  | _ => none
+end Stream
+
 end Exec
 end AgeModel
